@@ -145,10 +145,14 @@ def joinSp : List Bytes → Bytes
 /-- `StringFromBinary`: two upper-case hex digits per byte, single spaces between -/
 def binary (x : Bytes) : Bytes := joinSp (x.map hex2)
 
-/-- `StringFromBinaryWithSize` (the size is printed through `(unsigned)`) -/
+/-- the header `printf("Size = %u | HexContents = ", (unsigned) n)` prints (explicit ASCII bytes) -/
+def sizeHeader (n : Nat) : Bytes :=
+  [83, 105, 122, 101, 32, 61, 32] ++ dec (n % 4294967296) ++
+    [32, 124, 32, 72, 101, 120, 67, 111, 110, 116, 101, 110, 116, 115, 32, 61, 32]
+
+/-- `StringFromBinaryWithSize`: the header, at most 128 bytes as hex pairs, `" ..."` when cut -/
 def binaryWithSize (x : Bytes) : Bytes :=
-  ofString "Size = " ++ dec (x.length % 4294967296) ++ ofString " | HexContents = " ++ binary (x.take 128) ++
-    (if x.length > 128 then ofString " ..." else [])
+  sizeHeader x.length ++ binary (x.take 128) ++ (if x.length > 128 then [32, 46, 46, 46] else [])
 
 def nullText : Bytes := [40, 110, 117, 108, 108, 41]      -- "(null)"
 
